@@ -121,9 +121,21 @@ func (p *FunctionBuilder) CreateFunction(m *bmodel.MethodEntry) (*gmodel.Functio
 			return nil, logger.Errorf("%v: the name %v would be declared twice in the function", p.fset.Position(m.Method.Pos()), v.Name)
 		}
 		names[v.Name] = true
-		if _, ok := p.imports.LookupPath(v.Name); ok {
-			// Inside the function the name would hide the package: qualified types, converters and hooks of it could not be written.
-			return nil, logger.Errorf("%v: the name %v hides the imported package of that name in the function; rename it", p.fset.Position(m.Method.Pos()), v.Name)
+		if obj := p.lookupInFile(m.Method.Pos(), v.Name); obj != nil {
+			// Inside the function the name would hide what the setup file knows by it: an imported package, a type,
+			// a converter, a hook or a builtin the function body may have to write.
+			return nil, logger.Errorf("%v: the name %v hides %v in the function; rename it", p.fset.Position(m.Method.Pos()), v.Name, describeObject(obj))
+		}
+	}
+	if m.RetError() {
+		if obj := p.lookupInFile(m.Method.Pos(), "err"); obj != nil {
+			return nil, logger.Errorf("%v: the error result is called err, which hides %v in the function", p.fset.Position(m.Method.Pos()), describeObject(obj))
+		}
+	}
+	if m.Opts.Receiver == "" {
+		if _, isPkg := p.lookupInFile(m.Method.Pos(), m.Method.Name()).(*types.PkgName); isPkg {
+			// A function of that name at file level takes the name away from the import.
+			return nil, logger.Errorf("%v: a function called %v would hide the imported package of that name", p.fset.Position(m.Method.Pos()), m.Method.Name())
 		}
 	}
 
@@ -139,7 +151,7 @@ func (p *FunctionBuilder) CreateFunction(m *bmodel.MethodEntry) (*gmodel.Functio
 	if err != nil {
 		return nil, err
 	}
-	if (names["i"] || names["e"]) && hasSliceLoop(assignments) {
+	if (names["i"] || names["e"] || p.lookupInFile(m.Method.Pos(), "i") != nil || p.lookupInFile(m.Method.Pos(), "e") != nil) && hasSliceLoop(assignments) {
 		// The loop of a slice copy declares i and e: it would hide the operand of that name.
 		return nil, logger.Errorf("%v: the names i and e are used by the loop that copies a slice; rename the parameter", p.fset.Position(m.Method.Pos()))
 	}
@@ -168,6 +180,38 @@ func (p *FunctionBuilder) CreateFunction(m *bmodel.MethodEntry) (*gmodel.Functio
 	}
 
 	return fn, nil
+}
+
+// lookupInFile returns what the given name denotes at file level of the setup file: an imported package
+// (not a blank import, which brings no name), a declaration of the package, a dot-imported or a predeclared
+// name; nil if the name is free.
+func (p *FunctionBuilder) lookupInFile(pos token.Pos, name string) types.Object {
+	if p.pkg == nil || p.pkg.Types == nil {
+		return nil
+	}
+	pkgScope := p.pkg.Types.Scope()
+	for i := 0; i < pkgScope.NumChildren(); i++ {
+		if fileScope := pkgScope.Child(i); fileScope.Contains(pos) {
+			_, obj := fileScope.LookupParent(name, token.NoPos)
+			return obj
+		}
+	}
+	_, obj := pkgScope.LookupParent(name, token.NoPos)
+	return obj
+}
+
+// describeObject names an object for a diagnostic.
+func describeObject(obj types.Object) string {
+	switch obj.(type) {
+	case *types.PkgName:
+		return "the imported package of that name"
+	case *types.Builtin, *types.Nil:
+		return "the predeclared " + obj.Name()
+	}
+	if obj.Pkg() == nil {
+		return "the predeclared " + obj.Name()
+	}
+	return "the declaration of " + obj.Name()
 }
 
 // hasSliceLoop returns true if one of the assignments, at any depth, is a slice copy that is written as a loop.
